@@ -132,7 +132,7 @@ async fn run_case(behs: Vec<Beh>, ops: Vec<String>) -> String {
         }
     }
     settle().await;
-    if task.is_finished() { if let Err(e) = (&mut { task }).await { if e.is_panic() { sh.log("panicked".into()); } } } else { drop(task); }
+    if task.is_finished() { match (&mut { task }).await { Err(e) if e.is_panic() => sh.log("panicked".into()), _ => sh.log("ended".into()) } } else { drop(task); }
     let unres: Vec<String> = waiters.iter().filter(|(r, _)| !r.done.load(std::sync::atomic::Ordering::SeqCst)).map(|(r, _)| r.w.to_string()).collect();
     // sanity: a recorded wake-up means the ticket really is ready
     for (r, fut) in waiters.iter_mut() { if r.done.load(std::sync::atomic::Ordering::SeqCst) { let wk = std::task::Waker::from(r.clone()); assert!(fut.as_mut().poll(&mut std::task::Context::from_waker(&wk)).is_ready(), "woken but not ready"); } }
